@@ -47,6 +47,44 @@ CHECKS["C06"] = {
     "design_ref": "5 (C06)",
 }
 
+_E2_NOTE = ("Trusted: gate rules (re-derived from matrices each run), C enumerator cross-checked against the Python model. "
+            "Observation = instruction list of the returned QuantumCircuit interpreted by the model; Qiskit simulators are not used as oracle. "
+            "Bounded where stated: n<=4 complete over groups (signs/presentations per tier), n=5 complete over groups in thorough, n=6 bounded families "
+            "(table graph states, local balls B6(r), all graph states, residue class R16 of the BFS order).")
+CHECKS["C01"] = {
+    "engine": "stategraph+conform",
+    "technique": "explicit enumeration of the stabilizer state space (BFS over all groups x signs x presentations x formats); real API run on every enumerated state; result executed in the reference tableau model",
+    "text": "Every enumerated signed stabilizer state (all groups and all sign vectors for n<=3, all groups for n=4, all 75735 groups for n=5 in thorough, bounded "
+            "families incl. local balls around every table entry and a 1/16 residue class of all 4.9M groups for n=6) is handed to get_preparation_circuit "
+            "in several generator presentations and input formats on every connectivity; the returned instruction list is executed by the verifier's "
+            "signed-tableau model from |0..0> and the signed RREF must equal that of the request.",
+    "note": _E2_NOTE, "design_ref": "5 (C01)",
+}
+CHECKS["C02"] = {
+    "engine": "tablescan+conform",
+    "technique": "exhaustive scan of every shipped circuit text and every coupling graph against an independently transcribed edge table; enumeration of delivered circuits over model states and over ordered measured-qubit lists",
+    "text": "All 20 coupling graphs, all 6686 circuit texts of the 40 tables and all MUB circuits returned by the API are compared with an edge table transcribed from the "
+            "property statement. Preparation, readout and compressed circuits are inspected for the enumerated model states (same state space as C01, thinned in quick), "
+            "and the readout part of tomography / stabilizer-measurement circuits for every ordered m-subset of N qubits ((m,N) up to (3,5) complete, families beyond, N<=8).",
+    "note": _E2_NOTE, "design_ref": "5 (C02)",
+}
+CHECKS["C03"] = {
+    "engine": "stategraph+conform",
+    "technique": "explicit enumeration of stabilizer states; every one of the 2^n group elements conjugated through the returned readout circuit in the reference model",
+    "text": "For every enumerated state (same state space as C01) get_readout_circuit is called; all 2^n group elements, expanded by the model, are conjugated through the "
+            "returned instruction list and must end as distinct Z-strings; the circuit must be identical for the same generators with other signs, and its inverse "
+            "must prepare the group up to signs.",
+    "note": _E2_NOTE, "design_ref": "5 (C03)",
+}
+CHECKS["C04"] = {
+    "engine": "stategraph+conform",
+    "technique": "explicit enumeration of stabilizer states grouped by connected component of the state graph; cost/depth observations compared per component and with table metadata; full table scan",
+    "text": "Two-qubit count (swap=3) and ASAP two-qubit depth of the preparation, readout and compressed circuits are measured for every enumerated state and must equal "
+            "the lookup metadata of the state's class; observations are grouped by (configuration, model component) and must be constant on each component. "
+            "All table entries: recorded cost/depth equal the recomputed values.",
+    "note": _E2_NOTE, "design_ref": "5 (C04)",
+}
+
 NOT_YET = "check not built yet (work in progress in this session; planned as model checking, see DESIGN.md section 5)"
 
 
